@@ -80,6 +80,10 @@ CLAIMS = {
    text='Partial (lock-step skeleton): in every `if (encode) .. else ..` of the shared CELT band/rate code both arms issue the same entropy-coder operations with the same model parameters; 18 encoder/decoder function pairs (SILK indices, pulses, shell, signs, stereo; CELT coarse/fine/final energy, tf, Laplace, PVQ pulses; CELT and SILK frame headers; hybrid redundancy signalling) issue the same ordered list of distinct coder events (kind, resolved table set, constants), and every SILK index field is coded with the same model on both sides; both sides publish coder.rng ^ redundant_rng and 0 on every TOC-only / tiny-payload path (must-reach dataflow on the field); no encoder-side error is dropped (prefill-into-dummy calls are the reasoned exception); every TOC is generated from the frame size being coded. That every packet decodes to the encoder\'s final range, packet validity for all inputs, absence of internal errors, and conformance of code shared by both sides are NOT decided.',
    note=TRUST + 'A change made consistently to code shared by encoder and decoder (e.g. the allocation arithmetic in celt/rate.c) is invisible to these rules; tables are covered by C03.',
    technique='sibling agreement of entropy-coder event sequences (points-to resolved tables) + control-dependence regions + must-reach dataflow on a state field + unchecked-error rule'),
+ 'C01': dict(category='other',
+   text='Partial (necessary conditions of memory safety and totality, each decided over all paths): the argument/capacity guards are on every path to any write into the caller\'s PCM and to any stack allocation sized by frame_size (edge-dominance), and the frame loop, the PLC loop, the chunked concealment and the FEC branch hand the frame decoder exactly the remaining capacity at the matching offset; packet bytes are read only under a length bound (parser: linear-ghost interval analysis shared with C06; reads through parsed frame pointers guarded by size[]); range-decoder byte reads are guarded and zero-filled; every iCDF table reaching a decoder call terminates; 19 subscripts of constant tables by decoded symbols are proved in range by interval analysis with the decoder\'s results bounded by their own tables, field summaries over the decoder functions and parameter binding from all call sites; no decode error is dropped; last_packet_duration equals the returned count; CELT band energy is clamped before exponentiation. One genuine defect found by the frame-pointer rule (opus_packet_has_lbrr over-read) was repaired. In-bounds access and termination of the WHOLE decoder (CELT band loops, PLC buffers, resampler), finiteness of every sample and absence of OPUS_INTERNAL_ERROR are NOT decided.',
+   note=TRUST + 'spec/c01_index_sites.json freezes the subscript sites proved on the reference tree; sites the interval domain cannot prove are listed in the evidence as not decided.',
+   technique='edge-dominance guard rules + cursor/budget pattern rules + interprocedural interval abstract interpretation (call summaries from table data, field summaries, parameter binding) + rules shared with C06/C08/C09/C17'),
 }
 
 NA_REASON = {
